@@ -9,16 +9,8 @@ NUM = re.compile(r"([~^])([0-9.]+)")
 
 
 def canon(s):
-    """re-spell every numeral after ~ or ^ canonically (same function applied to both sides)"""
-    def rep(m):
-        try:
-            d = Decimal(m.group(2))
-        except InvalidOperation:
-            return m.group(0)
-        d = d.normalize() if d == d.to_integral_value() and d.as_tuple().exponent > 0 else d
-        txt = format(d.normalize(), "f") if d != 0 else "0"
-        return m.group(1) + txt
-    return NUM.sub(rep, s)
+    """re-spell every numeral after ~ or ^ canonically (same exact, unbounded function applied to both sides)"""
+    return NUM.sub(lambda m: m.group(1) + PG.canon_numeral(m.group(2)), s)
 
 
 def f1_pattern(s):
@@ -104,7 +96,17 @@ def correspond(model_ok, res):
             res.failures.append(({"input": s, "history": ["parse(input)", "edit the returned tree in place",
                                                           "parse(input) again"],
                                   "why": "the second parse of the same text does not return the original tree"}, None))
-    res.cases = len(strings) + len(hist)
+    # numerals of a million digits: Python oracle only (see parsegen.huge_numerals)
+    huge = PG.huge_numerals()
+    for s in huge:
+        k, v = PG.impl_parse(s, parser.parse)
+        short = s[:12] + "...(%d chars)" % len(s)
+        if k == "other":
+            res.failures.append(({"input": short, "why": "exception that is not a ParseError: " + v[:200]}, None))
+        elif k == "ok" and canon(v.__str__(head_tail=True)) != canon(s):
+            res.failures.append(({"input": short, "printed": v.__str__(head_tail=True)[:40],
+                                  "why": "printing the tree does not give back the query (huge numeral)"}, None))
+    res.cases = len(strings) + len(hist) + len(huge)
     res.nontrivial = len(seen)
     res.rule = ("grammar-directed queries over every production with random Unicode-whitespace layout, "
                 "blank-separated variants (blanks before ':'), all token-type sequences up to length 2 "
